@@ -34,7 +34,7 @@ open XixiKV XixiKV.Frame XixiKV.Record XixiKV.Index XixiKV.Engine XixiKV.Engine.
        directory `dest` untouched (so 3. keeps holding for the mapping at backup time). -/
 theorem C20_backup (s : St) (db : DB) (g : GDir) (dest : String) (cfg' : Cfg)
     (hdb : s.db = some db) (hinv : Inv s db g)
-    (hfresh : s.world.get dest = none) (hplan : plan s.world dest = none) (hcfg : cfg'.fileSize > 0) :
+    (hfresh : s.world.get dest = none) (hplan : plan s.world dest = none) (hcfg : cfg'.Valid) :
     ∃ s', backup s dest = (s', .ok) ∧
       -- 1. source unaffected
       s'.db = some db ∧ (∀ n, n ≠ dest → s'.world.get n = s.world.get n) ∧ Inv s' db g ∧
